@@ -413,3 +413,77 @@ def reject_sig(text, filename=""):
         return "reject@RecursionError"
     except Exception as e:  # noqa
         return "reject@" + exc_site(e)
+
+
+# ---------------------------------------------------------------------------
+# attribution of failures on model-generated items to minimal feature sets
+# ---------------------------------------------------------------------------
+def shape_features(sig: str):
+    """Constructor names and parent>child edges of a shape string such as
+    'fordecl(block(goto;break))' or 'bin11(_,pre-(_))'."""
+    feats = set()
+    stack = []
+    name = ""
+    for ch in sig + "\0":
+        if ch in "(),;\0":
+            nm = name.strip()
+            if nm and nm != "_":
+                feats.add(nm)
+                if stack and stack[-1]:
+                    feats.add(stack[-1] + ">" + nm)
+            if ch == "(":
+                stack.append(nm)
+            elif ch == ")":
+                if stack:
+                    stack.pop()
+            name = ""
+        else:
+            name += ch
+    return feats
+
+
+def attribute_failures(all_sigs, failing):
+    """all_sigs: list of shape strings of every enumerated item; failing: set of
+    indices that failed.  Returns {index: minimal feature set (string)} where a
+    feature set S qualifies if *every* enumerated item containing S failed
+    (exhaustive over the enumerated set); singletons are tried before pairs."""
+    import itertools as _it
+
+    feats = [shape_features(s) for s in all_sigs]
+    total1, fail1 = {}, {}
+    for i, fs in enumerate(feats):
+        for f in fs:
+            total1[f] = total1.get(f, 0) + 1
+            if i in failing:
+                fail1[f] = fail1.get(f, 0) + 1
+    out = {}
+    need_pairs = []
+    for i in sorted(failing):
+        c = sorted(f for f in feats[i] if fail1.get(f, 0) == total1[f])
+        if c:
+            # prefer plain constructor names over edges, then shortest
+            c.sort(key=lambda f: (">" in f, len(f), f))
+            out[i] = c[0]
+        else:
+            need_pairs.append(i)
+    if need_pairs:
+        total2, fail2 = {}, {}
+        cand = set()
+        for i in need_pairs:
+            for p in _it.combinations(sorted(feats[i]), 2):
+                cand.add(p)
+        for i, fs in enumerate(feats):
+            fl = sorted(fs)
+            for p in _it.combinations(fl, 2):
+                if p in cand:
+                    total2[p] = total2.get(p, 0) + 1
+                    if i in failing:
+                        fail2[p] = fail2.get(p, 0) + 1
+        for i in need_pairs:
+            c = [p for p in _it.combinations(sorted(feats[i]), 2) if fail2.get(p, 0) == total2.get(p, -1)]
+            if c:
+                c.sort(key=lambda p: (sum(">" in f for f in p), len(p[0]) + len(p[1]), p))
+                out[i] = "+".join(c[0])
+            else:
+                out[i] = all_sigs[i]
+    return out
